@@ -175,6 +175,10 @@ func init() {
 		}
 		return e // Wrap(nil) = nil, Wrap(err) != nil: nil-ness is preserved, which is all the model keeps
 	}
+	models["errors.Is"] = func(m *Machine, _ *Frame, _ *ssa.CallCommon, a []Val) Val {
+		m.E.Assume("A-ERRORS", "errors.Is(err, sentinel) is read as identity with the sentinel (errors are nil/non-nil plus sentinel identity)")
+		return And(Neq(term(a[0]), IntLit(0)), Eq(term(a[0]), term(a[1])))
+	}
 	models["cosmossdk.io/errors.Wrap"] = wrap
 	models["cosmossdk.io/errors.Wrapf"] = wrap
 	models["(*cosmossdk.io/errors.Error).Wrap"] = wrap
